@@ -387,6 +387,11 @@ class BuiltinMixin:
             x = ops.int_of(v)
             if isinstance(x, int):
                 return str(x)
+            if x.t.lo is not None and x.t.lo >= 0 and x.t.hi is not None:
+                if x.t.hi <= 1:
+                    return SymStr([("bit", x.t)])
+                if x.t.hi <= 9:
+                    return SymStr([("hexd", x.t)])     # a decimal digit is the same character as the hex digit
             return SymStr([("dec", x.t)])
         if isinstance(v, SBool):
             if self.path.decide(v.t, "str(bool)"):
